@@ -56,6 +56,13 @@ let handle op args =
        | Accept -> ["accept"]
        | Reject r -> ["rej" ^ string_of_int (int_of_n (rej_code r))]
        | Panic -> ["panic"])
+  | "anyev", [evs] ->
+      (* T = type_url:, V = value:, E = expanded form with an acceptable embedded message *)
+      let l = Stdlib.List.init (String.length evs) (fun i -> match evs.[i] with 'T' -> AT | 'V' -> AV | _ -> AE Accept) in
+      (match tany l false false false with
+       | Accept -> ["accept"; tok_of_bool (excl_FL3 l)]
+       | Reject r -> ["rej" ^ string_of_int (int_of_n (rej_code r)); tok_of_bool (excl_FL3 l)]
+       | Panic -> ["panic"; "0"])
   | _ -> failwith ("uniq: unknown op " ^ op)
 
 let () = register "uniq" handle
